@@ -268,6 +268,7 @@ class State:
         self.case = {}          # case assumptions chosen by the rule (e.g. {"pow2": "lo"})
         self.pow2 = {}          # D -> E with D * E = 2^32 (D a power of two below 2^32)
         self.rems = []          # (remainder expression, divisor expression): 0 <= remainder < divisor
+        self.lows = []          # polynomials known to be in [0, 2^32) (low limbs produced by u32 instructions)
 
     def new(self, prefix, ub):
         self.fresh += 1
@@ -292,6 +293,7 @@ class State:
         s.case = dict(self.case)
         s.pow2 = dict(self.pow2)
         s.rems = list(self.rems)
+        s.lows = list(self.lows)
         return s
 
 
@@ -334,6 +336,27 @@ class Exec:
 
     def push(self, st, v):
         st.stack.insert(0, v)
+
+    def refine_ub(self, st, z, ub):
+        """a low limb L = T - 2^32 * S >= 0 bounds S by ub(T) >> 32 (e.g. hi + carry of  a*b + p + k  never exceeds 2^32 - 1
+        although hi <= 2^32 - 1 and carry <= 1 separately); facts (L, S, ub(T)) are recorded by the u32 instructions and chained
+        when a low limb is an operand of the next one"""
+        if ub < U32 or z.const_value() is not None:
+            return ub
+        for L, S, tub in st.lows:
+            if S == z:
+                ub = min(ub, tub >> 32)
+        return ub
+
+    def low_fact(self, st, L, carry, parts):
+        """record L = (sum of parts) - 2^32 * carry; parts = [(polynomial or None, upper bound)]"""
+        st.lows.append((L, carry, sum(u for z, u in parts)))
+        for i, (z, u) in enumerate(parts):
+            if z is None:
+                continue
+            for L0, S0, t0 in list(st.lows):
+                if L0 == z:
+                    st.lows.append((L, S0 + carry, t0 + sum(u2 for j, (z2, u2) in enumerate(parts) if j != i)))
 
     def u32_operand(self, st, v, ins, ln):
         if not is_u32(v):
@@ -445,6 +468,7 @@ class Exec:
             a = self.pop(st)
             if op == "add":
                 z, ub = a.z + b.z, a.ub + b.ub
+                ub = self.refine_ub(st, z, ub)
             elif op == "mul":
                 z, ub = a.z * b.z, a.ub * b.ub
             else:
@@ -561,6 +585,7 @@ class Exec:
             k = st.new("k", 1)
             st.defs[k] = ("carry", a.z + b.z)
             s = Val(a.z + b.z - ZP.const(U32) * ZP.var(k), U32 - 1)
+            self.low_fact(st, s.z, ZP.var(k), [(a.z, a.ub), (b.z, b.ub)])
             self.push(st, s)
             if op.startswith("u32overflowing"):
                 st.meaning[k] = ("ge", a.z + b.z, ZP.const(U32))
@@ -621,6 +646,7 @@ class Exec:
             hub = (a.ub * b.ub + c.ub) >> 32
             h = st.new("h", hub)
             st.defs[h] = ("mulhi", a.z * b.z + c.z)
+            self.low_fact(st, a.z * b.z + c.z - ZP.const(U32) * ZP.var(h), ZP.var(h), [(None, a.ub * b.ub), (c.z, c.ub)])
             self.push(st, Val(a.z * b.z + c.z - ZP.const(U32) * ZP.var(h), U32 - 1))
             if op.startswith("u32overflowing"):
                 self.push(st, Val(ZP.var(h), hub))
@@ -794,6 +820,10 @@ class Exec:
     def run_proc(self, name, inputs, budget=4000):
         st = State()
         st.stack = list(inputs) + [Val(ZP.var("deep%d" % i), P - 1) for i in range(len(inputs), 64)]
+        for v in inputs:
+            vs = v.z.vars() if hasattr(v.z, "vars") else set()
+            if len(vs) == 1 and v.z == ZP.var(next(iter(vs))):
+                st.ranges.setdefault(next(iter(vs)), v.ub)
         out = []
         self.run_block(st, self.m.procs[name].body, out, [budget])
         return out
